@@ -670,19 +670,11 @@ pub fn must_reach(rep: &Report, tier: Tier) {
     }
 }
 
-fn scenarios(tier: Tier) -> Vec<Scn> {
+fn scenarios(_tier: Tier) -> Vec<Scn> {
     let mut v = Vec::new();
     for l in lists(3) {
         for sender in [CLIENT, SERVER] {
             for uring in [false, true] {
-                if tier == Tier::Quick && l.len() == 3 {
-                    // quick: of the 80 lists of length three only those that end in a control frame or
-                    // mix all three data sizes, alternating the driver
-                    let interesting = (l[2] == CLOSE || l[2] == PING) && l[0] != l[1] || l == [0, 1, 2] || l == [2, 1, 0];
-                    if !interesting || uring != ((l[0] + l[1]) % 2 == 0) {
-                        continue;
-                    }
-                }
                 v.push(Scn {
                     sender,
                     msgs: l.clone(),
@@ -697,7 +689,7 @@ fn scenarios(tier: Tier) -> Vec<Scn> {
 pub fn run(rep: &Report, col: &Collector, tier: Tier) -> Value {
     let scns = scenarios(tier);
     let bound = tier.pick(1, 2);
-    let deadline = tier.pick(43.0, 560.0);
+    let deadline = tier.pick(43.0, 570.0);
     let cx = WsCtx {
         rep,
         col,
@@ -747,7 +739,7 @@ pub fn run(rep: &Report, col: &Collector, tier: Tier) -> Value {
     rep.count("ws.readiness-needed-extra-harvest-rounds", cx.late.load(Ordering::Relaxed));
     json!({
         "scenarios": scns.len(),
-        "message_lists": "all lists of <= 3 symbols from {empty text, 1-byte binary, 200-byte binary, ping, close} with close only in last position (106 lists; quick: all lists of <= 2 and 24 selected lists of 3), sent by the client or by the server, on the io_uring and on the polling driver",
+        "message_lists": "all lists of <= 3 symbols from {empty text, 1-byte binary, 200-byte binary, ping, close} with close only in last position (106 lists), sent by the client or by the server, on the io_uring and on the polling driver",
         "deviation_bound": bound,
         "relay_deviations": ["one byte", "half", "hold for one step"],
         "relay_points_max_per_run": points_max,
